@@ -15,5 +15,6 @@ for id in "$@"; do
   echo "$out" | grep -a -A1 "^VIOLATION" | head -6
   echo "$out" | grep -a -E "^INCONCLUSIVE|^C[0-9]+ " | tail -2
 done
+git -C /repo apply -R "$PATCH" 2>/dev/null || git -C /repo checkout -- .
 git -C /repo checkout -- .
 git -C /repo status --porcelain | head -3
